@@ -6,7 +6,10 @@ package zz_verif_sim
 // runner must answer with an error there (or, where the properties leave the
 // outcome open, with anything but a panic) and stay usable afterwards.
 
-import "fmt"
+import (
+	"fmt"
+	"time"
+)
 
 func c06World(tp *Tape, env *Env) (*Plan, *Violation) {
 	cfg := &GenCfg{
@@ -127,21 +130,38 @@ func c06Exec(plan *Plan, st *Stats) *Violation {
 		_, viol = runOps(h, plan.Ops, hk, st)
 		if viol == nil {
 			// usable afterwards: further calls with in-range choices return an element, the end or an error
+			waitingStreak := 0
 			for k := 0; k < 8; k++ {
 				arg := 0
 				if lastResp != nil && lastResp.Kind == rOptions && len(lastResp.Opts) > 0 {
 					arg = (salt + k) % len(lastResp.Opts)
 				}
+				// nothing may stay pending: every invocation is released and the clock runs on
 				for j := 0; j < h.nInvs(); j++ {
 					h.Release(j, false)
 				}
 				settle(bubble)
+				if bubble {
+					sleepInBubble(100000 * time.Second)
+				}
+				invsBefore := h.nInvs()
 				r := h.Next(arg)
 				settle(bubble)
 				lastResp = &r
 				if r.Kind == rPanic {
 					viol = &Violation{Clause: "C06.unusable", OpIndex: len(plan.Ops) + k, Observed: r, Note: "Next panicked after an earlier error"}
 					break
+				}
+				if r.Kind == rWaiting && h.nInvs() == invsBefore {
+					// waiting although no handler was started by this call: legitimate once (a <<wait>> just
+					// dispatched), never twice in a row with 10^5 simulated seconds in between
+					waitingStreak++
+					if waitingStreak >= 3 {
+						viol = &Violation{Clause: "C06.unusable", OpIndex: len(plan.Ops) + k, Observed: r, Note: "after an earlier error the runner keeps answering 'waiting for command completion' although nothing is pending"}
+						break
+					}
+				} else {
+					waitingStreak = 0
 				}
 			}
 		}
